@@ -15,7 +15,8 @@
    common.NormalizeTree returned.  Nothing is assumed about them.
 
    The model describes the code WITH patches/C15/fix-C15c.patch,
-   fix-C15d.patch and fix-F-C15e.patch applied (the last one: [sanitize] below): common.NormalizeTree only logs a URL the tree
+   fix-C15d.patch and fix-F-C15e.patch applied (the last one: [sanitize] below;
+   all three are committed in /repo, so this is /repo as it is): common.NormalizeTree only logs a URL the tree
    refuses (the unpatched code returned the error and discovery.Run dropped the
    whole batch), and a persisted key is split at its FIRST ":::" only
    (strings.SplitN; the unpatched strings.Split truncated a URL containing
